@@ -335,6 +335,11 @@ fn pick_single_kind(rng: &mut Rng, allow_sim: bool, dynamic: bool) -> Kind {
     }
 }
 
+/// byte-slice containers of C03 / C13 runs also start at offsets 4, 8, 12 (aligned for the pixel
+/// type, not for a 16-byte vector); the other properties keep the 1..3-byte offsets, so that
+/// their runs are the ones the committed evidence was produced from
+static WIDE_MISALIGN: std::sync::atomic::AtomicBool = std::sync::atomic::AtomicBool::new(false);
+
 fn mk_img(rng: &mut Rng, w: u32, h: u32, kind: Kind, pt: Pt, is_dst: bool, yield_rows: bool) -> Img {
     let mut pad = [0u32; 4];
     let mut pad2 = [0u32; 4];
@@ -370,7 +375,21 @@ fn mk_img(rng: &mut Rng, w: u32, h: u32, kind: Kind, pt: Pt, is_dst: bool, yield
         stride_extra: if kind.is_sim() && rng.chance(2, 3) { rng.range(1, 5) as u32 } else { 0 },
         yield_rows: kind.is_harness() && yield_rows,
         panic_at: 0,
-        misalign: if matches!(kind, Kind::Buffer | Kind::DynSlice | Kind::DynImgAsSrc) && rng.chance(1, 20) { rng.range(1, 3) as u8 } else { 0 },
+        misalign: if !matches!(kind, Kind::Buffer | Kind::DynSlice | Kind::DynImgAsSrc) {
+            0
+        } else if WIDE_MISALIGN.load(std::sync::atomic::Ordering::Relaxed) {
+            // C03, C13: 1..3 are refused by the constructors of the 2- and 4-byte component
+            // types; 4, 8, 12 (2, 6 for u16) are accepted but not 16-byte aligned
+            if rng.chance(1, 12) {
+                *rng.pick(&[1u8, 2, 3, 4, 8, 12, 4, 8, 12, 6])
+            } else {
+                0
+            }
+        } else if rng.chance(1, 20) {
+            rng.range(1, 3) as u8
+        } else {
+            0
+        },
         view_override: None,
     }
 }
@@ -827,6 +846,7 @@ fn inject_panic(rng: &mut Rng, r: &mut ResizeOp) -> bool {
 // ---------------------------------------------------------------------------------------
 
 pub fn generate(k: &Knobs, seed: u64) -> Scenario {
+    WIDE_MISALIGN.store(k.prop == "C13" || k.prop == "C03", std::sync::atomic::Ordering::Relaxed);
     let mut rng = Rng::new(seed);
     let mut scn = base(k.prop, seed, &mut rng, k.thorough);
     let mut classes: Vec<String> = vec![];
@@ -1202,14 +1222,17 @@ pub fn generate(k: &Knobs, seed: u64) -> Scenario {
                     if dynamic && rng.chance(1, 3) {
                         i.misalign = rng.range(1, 3) as u8;
                     }
-                    if k.prop == "C13" {
+                    if k.prop == "C13" && i.misalign % 4 != 0 {
                         i.misalign = 0;
                     }
                 }
             } else if k.prop == "C13" {
-                // every recipe of a C13 run must accept its buffer
+                // every recipe of a C13 run must accept its buffer: only offsets every pixel
+                // type accepts (4, 8, 12 - aligned for the components, not for a 16-byte vector)
                 for i in imgs {
-                    i.misalign = 0;
+                    if i.misalign % 4 != 0 {
+                        i.misalign = 0;
+                    }
                 }
             }
         }
